@@ -1403,3 +1403,131 @@ func ruleFieldInit(c *Ctx, rule string) {
 		c.Ok(rule, "no returned library object with a field used unchecked", "-", fmt.Sprintf("%d fields used without a nil test", len(required)))
 	}
 }
+
+// ---- C19/invoker-assert (also C14) ---------------------------------------------------------------------------
+// Every unchecked type assertion in the methods of Invoker is reached only
+// where a flag field of the Invoker is true that is stored, everywhere in the
+// package, with the ok result of a comma-ok assertion of the same field to the
+// same type (a cached assertion).  Library functions hand any callable to
+// NewInvoker - also when a Go program calls them directly without a VM - and
+// an assertion that is not covered by the flag panics for a builtin callee.
+func ruleInvokerAssert(c *Ctx, rule string) {
+	l := c.L
+	invT := l.NamedType(modPath, "Invoker")
+	if !c.Anchor(rule, "type Invoker", invT != nil) {
+		return
+	}
+	st, _ := invT.Underlying().(*types.Struct)
+	if !c.Anchor(rule, "Invoker is a struct", st != nil) {
+		return
+	}
+	isInvField := func(v ssa.Value) (*ssa.FieldAddr, bool) {
+		u, ok := v.(*ssa.UnOp)
+		if !ok || u.Op != token.MUL {
+			return nil, false
+		}
+		fa, ok := u.X.(*ssa.FieldAddr)
+		if !ok {
+			return nil, false
+		}
+		pt, ok := fa.X.Type().Underlying().(*types.Pointer)
+		if !ok || !types.Identical(pt.Elem(), invT) {
+			return nil, false
+		}
+		return fa, true
+	}
+	// flagFor[B] = (F, T): field B caches "field F holds a T"
+	type cached struct {
+		f int
+		t types.Type
+	}
+	flagFor := map[int]*cached{}
+	bad := map[int]bool{}
+	for _, fn := range l.RepoFuncs(func(pp string) bool { return pp == modPath }) {
+		eachInstr(fn, func(ins ssa.Instruction) {
+			s, ok := ins.(*ssa.Store)
+			if !ok {
+				return
+			}
+			fa, ok := s.Addr.(*ssa.FieldAddr)
+			if !ok {
+				return
+			}
+			pt, ok := fa.X.Type().Underlying().(*types.Pointer)
+			if !ok || !types.Identical(pt.Elem(), invT) {
+				return
+			}
+			if b, ok := st.Field(fa.Field).Type().Underlying().(*types.Basic); !ok || b.Kind() != types.Bool {
+				return
+			}
+			ex, ok := s.Val.(*ssa.Extract)
+			if !ok || ex.Index != 1 {
+				// a constant false is harmless (it only disables the fast path)
+				if k, isC := s.Val.(*ssa.Const); isC && k.Value != nil && k.Value.String() == "false" {
+					return
+				}
+				bad[fa.Field] = true
+				return
+			}
+			ta, ok := ex.Tuple.(*ssa.TypeAssert)
+			if !ok || !ta.CommaOk {
+				bad[fa.Field] = true
+				return
+			}
+			srcField := -1
+			if src, ok := isInvField(ta.X); ok && (src.X == fa.X || exprEq(src.X, fa.X)) {
+				srcField = src.Field
+			} else {
+				// the asserted value is the very value stored into a field of the
+				// same Invoker in this function (a composite literal)
+				eachInstr(fn, func(i2 ssa.Instruction) {
+					if s2, ok := i2.(*ssa.Store); ok && s2.Val == ta.X {
+						if fa2, ok := s2.Addr.(*ssa.FieldAddr); ok && fa2.X == fa.X {
+							srcField = fa2.Field
+						}
+					}
+				})
+			}
+			if srcField < 0 {
+				bad[fa.Field] = true
+				return
+			}
+			if cur := flagFor[fa.Field]; cur != nil && (cur.f != srcField || !types.Identical(cur.t, ta.AssertedType)) {
+				bad[fa.Field] = true
+				return
+			}
+			flagFor[fa.Field] = &cached{srcField, ta.AssertedType}
+		})
+	}
+	n := 0
+	for _, fn := range l.RepoFuncs(func(pp string) bool { return pp == modPath }) {
+		r := fn.Signature.Recv()
+		if r == nil || !isNamed(r.Type(), modPath, "Invoker") {
+			continue
+		}
+		eachInstr(fn, func(ins ssa.Instruction) {
+			ta, ok := ins.(*ssa.TypeAssert)
+			if !ok || ta.CommaOk {
+				return
+			}
+			n++
+			good := assertGuarded(ta)
+			if src, ok := isInvField(ta.X); ok && !good {
+				for _, g := range guardEdges(ta.Block()) {
+					fl, ok := isInvField(g.If.Cond)
+					if !ok || !g.Truth || bad[fl.Field] {
+						continue
+					}
+					if cch := flagFor[fl.Field]; cch != nil && cch.f == src.Field && types.Identical(cch.t, ta.AssertedType) && (fl.X == src.X || exprEq(fl.X, src.X)) {
+						good = true
+					}
+				}
+			}
+			c.Check(rule, fmt.Sprintf("%s | %s.(%s)", fnName(fn), describe(ta.X), tstr(ta.AssertedType)), l.Pos(ta.Pos()), good, "reached only where the cached assertion flag is true",
+				"an unchecked assertion on the callee of an Invoker is reachable for a callee of another type (a builtin function handed to a library function that a Go program calls without a VM): interface conversion panic")
+		})
+	}
+	if n == 0 {
+		c.Ok(rule, "no unchecked assertion in the methods of Invoker", "-", "")
+	}
+}
